@@ -4,10 +4,10 @@ from vlib import *
 CRATE = "h_channel"
 
 
-def chan_info(ctx, bits):
+def chan_info(ctx, bits, main_bits=()):
     """concrete sizes the abstract layout needs (DER length of the minted certificates, smallest messages), measured on
     the real code; also generates the RSA keys once, before the engines run in parallel"""
-    p = ctx.write_cases("info", [{"case": 1, "c": {"bits": sorted(bits)}}])
+    p = ctx.write_cases("info", [{"case": 1, "c": {"bits": sorted(bits), "bits_main": sorted(set(main_bits) - set(bits))}}])
     obs = ctx.run("chaninfo", p, name="info", crate=CRATE)
     with open(obs) as f:
         r = json.loads(f.readline())["r"]
